@@ -61,10 +61,13 @@ type paced struct {
 	writes   [][]byte
 	reads    int
 	sets     int
+	// mark, when set, is the arrival whose delivery to a Read closes marked
+	mark   []byte
+	marked chan struct{}
 }
 
 func newPaced(stream bool, arr func(i int) (time.Duration, []byte, bool)) *paced {
-	p := &paced{arr: arr, stream: stream}
+	p := &paced{arr: arr, stream: stream, marked: make(chan struct{})}
 	p.cond = sync.NewCond(&p.mu)
 	return p
 }
@@ -103,6 +106,13 @@ func (p *paced) Read(b []byte) (int, error) {
 					n := copy(b, data)
 					if p.stream {
 						p.rest = data[n:]
+					}
+					if len(p.mark) > 0 && len(data) > 0 && &data[0] == &p.mark[0] {
+						select {
+						case <-p.marked:
+						default:
+							close(p.marked)
+						}
 					}
 					return n, nil
 				}
@@ -192,7 +202,7 @@ func startStallWatch() *stallWatch {
 			}
 			time.Sleep(10 * time.Millisecond)
 			now := time.Now()
-			if g := now.Sub(last) - 10*time.Millisecond; g > dlStall/4 {
+			if g := now.Sub(last) - 10*time.Millisecond; g > 5*time.Millisecond { // every late tick counts: many small delays add up too
 				w.mu.Lock()
 				w.gaps = append(w.gaps, struct {
 					at  time.Time
@@ -324,6 +334,17 @@ func (s *dlScenario) run(w *stallWatch) (verdict string, ok bool) {
 		}
 	}
 	pc := newPaced(stream, arr)
+	if stream {
+		pc.mark = frame(match)
+		fr := pc.mark
+		if s.MatchMs >= 0 {
+			arr0 := arr
+			arr = func(i int) (time.Duration, []byte, bool) { at, _, ok := arr0(i); return at, fr, ok }
+			pc.arr = arr
+		}
+	} else {
+		pc.mark = match
+	}
 	var conn net.Conn = pc
 	if !stream {
 		conn = pacedDgram{pc}
@@ -401,15 +422,40 @@ func (s *dlScenario) run(w *stallWatch) (verdict string, ok bool) {
 	}()
 	inTime := s.MatchMs >= 0 && matchAt < D
 	limit := D + dlSlack
-	if inTime {
-		limit = matchAt + dlSlack
-	}
 	var res result
-	returned := true
-	select {
-	case res = <-resc:
-	case <-time.After(limit):
-		returned = false
+	returned, slow := true, false
+	if !inTime {
+		select {
+		case res = <-resc:
+		case <-time.After(limit):
+			returned = false
+		}
+	} else {
+		// The matching reply sits behind the foreign ones that arrived before it and is
+		// handed over when the client gets there; the verdict counts from that moment
+		// (a client that is starved of CPU is not a finding). Over real sockets the
+		// moment is not observable: a more generous bound, still far below the deadline.
+		limit = dlSlack
+		delivered := pc.marked
+		if loop {
+			delivered = nil
+		}
+		select {
+		case res = <-resc:
+		case <-delivered:
+			select {
+			case res = <-resc:
+			case <-time.After(limit):
+				returned = false
+			}
+		case <-time.After(matchAt + 3*dlSlack):
+			if loop {
+				limit = matchAt + 3*dlSlack
+				returned = false
+			} else {
+				slow = true // neither delivered nor returned: the client did not get through the earlier replies
+			}
+		}
 	}
 	t1 := time.Now()
 	pc.Close()
@@ -425,8 +471,15 @@ func (s *dlScenario) run(w *stallWatch) (verdict string, ok bool) {
 		case <-time.After(infraWait):
 		}
 	}
-	if w.stalled(t0, t1) {
+	if w.stalled(t0, t1) || slow {
 		return "", false
+	}
+	if inTime && !loop && returned && res.err != nil && res.elapsed >= D-20*time.Millisecond {
+		select {
+		case <-pc.marked:
+		default:
+			return "", false // the deadline passed before the client had read as far as the matching reply
+		}
 	}
 	if inTime {
 		s.Want = "ok:" + render(match)
@@ -444,7 +497,7 @@ func (s *dlScenario) run(w *stallWatch) (verdict string, ok bool) {
 		}
 	default:
 		s.Got = "err:" + classify(res.err)
-		if !inTime && s.Got == "err:timeout" && res.elapsed < D-20*time.Millisecond {
+		if s.Got == "err:timeout" && res.elapsed < D-20*time.Millisecond {
 			s.Got = fmt.Sprintf("err:timeout-EARLY-after-%dms", res.elapsed/time.Millisecond)
 		}
 	}
